@@ -9,4 +9,5 @@ MC_Xs == {-3, -2, -1, 0, 1, 2, 3}
 MC_Amps == {-3, -1, 2, 5}
 MC_Locs == {-2, 0, 3}
 MC_UnitExps == {-1, 0, 1}
+MC_TCoefs == {-2, 3}
 =============================================================================
